@@ -4,7 +4,7 @@
    JsonString.v, Utf8Facts.v, TablesOk.v. *)
 From Coq Require Import Floats Permutation.
 From JM Require Import Model.Base Model.Num Model.Utf8 Model.Value Model.JsonText Model.Lexer Model.Parser Model.Interp Model.Api
-     Spec.Grammar Proofs.ValueFacts Proofs.TablesOk Proofs.Utf8Facts Proofs.JsonString Proofs.LexView Proofs.LexSpell Proofs.LexText Proofs.JsonRound
+     Spec.Grammar Proofs.ValueFacts Proofs.TablesOk Proofs.Utf8Facts Proofs.JsonString Proofs.LexView Proofs.LexSpell Proofs.LexText Proofs.LexAdj Proofs.JsonRound
      Inst.FloatNum Run.Checker.
 From JM Require Import gen.Tables.
 
@@ -124,6 +124,21 @@ Theorem C14_whitespace_is_insignificant :
       Forall2 (fun a b => ttype a = ttype b /\ tvalue a = tvalue b) o1 o2.
 Proof. exact whitespace_insignificant_tokens. Qed.
 
+(* tokens written with nothing between them: after optional leading whitespace, each
+   token may be followed by any run of whitespace, including none, provided that what
+   follows it cannot extend it (follow_ok: a letter, digit or underscore after a name,
+   a digit after a number, '?' or ']' after '[', the second character of '||' '&&' '!='
+   '<=' '>=' after the first); the lexer reads exactly those tokens, then EOF — so
+   a name denotes exactly the written name whatever it is adjacent to *)
+Theorem C14_adjacent_tokens_lex :
+  forall lead l, Forall wsc lead -> adj_ok l ->
+    exists out, tokenize (lead ++ text_ws l) = Ok (out ++ [Token tEOF [] (zlen (lead ++ text_ws l)) 0]) /\ Forall2 same_tv out (map fst l).
+Proof. exact tokenize_text_adj. Qed.
+
+Theorem C14_compact_layout_is_well_separated :
+  forall l, Forall (fun t => lexable t = true) l -> adj_ok (compact l) /\ map fst (compact l) = l.
+Proof. exact (fun l H => conj (compact_adj l H) (map_fst_compact l)). Qed.
+
 (* ---- the machinery behind: cursor lexer = lexer over the remaining input;
    UTF-8 and JSON string escaping round trips ---- *)
 Theorem C14_lexer_view : forall e, tokenize e = tokenizeS e.
@@ -155,6 +170,8 @@ Print Assumptions C14_literal_of_value.
 Print Assumptions C14_backtick_unescape.
 Print Assumptions C14_token_list_lexes.
 Print Assumptions C14_whitespace_is_insignificant.
+Print Assumptions C14_adjacent_tokens_lex.
+Print Assumptions C14_compact_layout_is_well_separated.
 Print Assumptions C14_lexer_view.
 Print Assumptions C14_utf8_round_trip.
 Print Assumptions C14_json_string_round_trip.
